@@ -22,8 +22,10 @@ type PackCase struct {
 	Op       string     `json:"op"`     // Expand | Pack
 	LogGap   int        `json:"logGap"` // Expand: logGap; Pack: inputLogGap
 	Zero     bool       `json:"zero,omitempty"`
-	Idx      []int      `json:"idx,omitempty"` // Pack: indices of the input ciphertexts (distinct, < 2^inputLogGap)
-	KeysFull bool       `json:"keysFull"`      // Pack: keys for GaloisElementsForPack(params, LogN) (as GenRepackEvaluationKeys) instead of (params, inputLogGap)
+	Idx      []int      `json:"idx,omitempty"`     // Pack: indices of the input ciphertexts (distinct, < 2^inputLogGap)
+	KeysFull bool       `json:"keysFull"`          // Pack: keys for GaloisElementsForPack(params, LogN) (as GenRepackEvaluationKeys) instead of (params, inputLogGap)
+	MinLogN  int        `json:"minLogN,omitempty"` // ExtractRepack: smallest ring degree of the ring-switching chain
+	Naive    int        `json:"naive,omitempty"`   // ExtractRepack: 0 Extract+Repack, 1 ExtractNaive+Repack, 2 Extract+RepackNaive
 }
 
 func (c PackCase) RandSeed() uint64 { return c.Seed }
@@ -36,8 +38,32 @@ func genPack(t *rapid.T) PackCase {
 	n := s.N()
 	s.Xs = h.GenDist(t, true, n, "xs")
 	s.Xe = h.GenDist(t, false, n, "xe")
-	c.Op = []string{"Expand", "Pack"}[rapid.IntRange(0, 1).Draw(t, "op")]
-	if c.Op == "Expand" {
+	c.Op = []string{"Expand", "Pack", "ExtractRepack"}[rapid.IntRange(0, 2).Draw(t, "op")]
+	if c.Op == "ExtractRepack" {
+		// Split/Merge (ring-degree switching) work on NTT-domain ciphertexts only (SwitchCiphertextRingDegreeNTT, monomial
+		// products in the NTT domain, no IsNTT handling unlike Expand/Pack); lattigo's tests use NTTFlag = true.
+		s.NTT = true
+	}
+	if c.Op == "ExtractRepack" {
+		if s.LogN < 5 {
+			s.LogN = 5 // the chain needs a smaller ring of degree >= 2^4
+		}
+		n = s.N()
+		c.MinLogN = rapid.IntRange(4, s.LogN-1).Draw(t, "minLogN")
+		c.Naive = rapid.IntRange(0, 2).Draw(t, "naive")
+		cnt := rapid.IntRange(1, 8).Draw(t, "count")
+		stride := 1 << rapid.IntRange(0, 2).Draw(t, "logStride")
+		seen := map[int]bool{}
+		for len(c.Idx) < cnt {
+			j := rapid.IntRange(0, n/stride-1).Draw(t, fmt.Sprintf("idx%d", len(c.Idx))) * stride
+			for seen[j] {
+				j = (j + stride) % n
+			}
+			seen[j] = true
+			c.Idx = append(c.Idx, j)
+		}
+		sort.Ints(c.Idx)
+	} else if c.Op == "Expand" {
 		c.LogGap = rapid.IntRange(0, s.LogN).Draw(t, "logGap")
 	} else {
 		c.LogGap = rapid.IntRange(1, s.LogN).Draw(t, "inputLogGap")
@@ -69,6 +95,10 @@ func genPack(t *rapid.T) PackCase {
 	}
 	// up to 8 inputs are merged over up to log2(N) doubling levels: 8N error terms bound every output coefficient
 	req := modReq{terms: 8 * n, depth: s.LogN + 1}
+	if c.Op == "ExtractRepack" {
+		// ring-degree switching down and up (one key switch per level each way), expansion and packing
+		req = modReq{needP: true, terms: 16 * n, depth: 2*s.LogN + 4}
+	}
 	req.msgOverTot = 12 + 4
 	var bp int
 	s.Q, s.P, bp = genModuli(t, s.LogN, s.NthRoot(), s.Xs, s.Xe, req, map[uint64]bool{})
@@ -101,6 +131,9 @@ func runPack(c PackCase, rec *h.Rec) error {
 	be, sl1 := c.Spec.Xe.AbsBound(), h.SecretL1(c.Spec.Xs, n)
 	ks := ksNoiseLog2(n, qs, c.Spec.P, 0, be, sl1)
 	noise := totalNoiseLog2(8*n, logN+1, ks, be)
+	if c.Op == "ExtractRepack" {
+		noise = totalNoiseLog2(16*n, 2*logN+4, ks, be)
+	}
 	msgBits := int(math.Floor(log2Prod(qs) - 4))
 	if float64(msgBits) < noise+10 {
 		// cannot be judged (noise bound too close to the message size): counted as trivial, never a violation
@@ -293,6 +326,89 @@ func runPack(c PackCase, rec *h.Rec) error {
 		rec.Classf("keys=%s", map[bool]string{true: "for-LogN", false: "for-inputLogGap"}[c.KeysFull])
 		rec.Classf("inputLogGap=%s", map[bool]string{true: "logN", false: "<logN"}[c.LogGap == logN])
 		rec.NonTrivial(fmt.Sprintf("pack|logN=%d|ntt=%v|gap=%d|zero=%v|idx=%v|lvl=%d/%d|nP=%d", logN, c.Spec.NTT, c.LogGap, c.Zero, c.Idx, c.Level, len(c.Spec.Q)-1, len(c.Spec.P)))
+	case "ExtractRepack":
+		// The key material is what the library's own generators produce for the advertised lists (GaloisElementsForExpand
+		// and GaloisElementsForPack at every ring degree they are called for, plus the ring-degree switching keys); the
+		// Galois key sets are wrapped to record the lookups.
+		evk := &rlwe.RingPackingEvaluationKey{}
+		ski, err := evk.GenRingSwitchingKeys(p, sk, c.MinLogN, rlwe.EvaluationKeyParameters{})
+		if err != nil {
+			return h.Failf("C11:rlwe:GenRingSwitchingKeys:error", "minLogN=%d: %v", c.MinLogN, err)
+		}
+		evk.GenRepackEvaluationKeys(evk.Parameters[c.MinLogN], ski[c.MinLogN], rlwe.EvaluationKeyParameters{})
+		evk.GenRepackEvaluationKeys(evk.Parameters[logN], ski[logN], rlwe.EvaluationKeyParameters{})
+		evk.GenExtractEvaluationKeys(evk.Parameters[c.MinLogN], ski[c.MinLogN], rlwe.EvaluationKeyParameters{})
+		var recs []*recKeys
+		for k, ks := range evk.RepackKeys {
+			r := newRecKeys(ks)
+			recs = append(recs, r)
+			evk.RepackKeys[k] = r
+		}
+		for k, ks := range evk.ExtractKeys {
+			r := newRecKeys(ks)
+			recs = append(recs, r)
+			evk.ExtractKeys[k] = r
+		}
+		missing := func() (m []uint64) {
+			for _, r := range recs {
+				m = append(m, r.missing...)
+			}
+			return
+		}
+		eval := rlwe.NewRingPackingEvaluator(evk)
+		msg := randPoly()
+		ct, err := encrypt(msg)
+		if err != nil {
+			return err
+		}
+		idx := map[int]bool{}
+		for _, j := range c.Idx {
+			idx[j] = true
+		}
+		detail := fmt.Sprintf("Extract/Repack(idx=%v, minLogN=%d, variant=%d) N=%d ntt=%v level=%d", c.Idx, c.MinLogN, c.Naive, n, c.Spec.NTT, c.Level)
+		var cts map[int]*rlwe.Ciphertext
+		if c.Naive == 1 {
+			cts, err = eval.ExtractNaive(ct, idx)
+		} else {
+			cts, err = eval.Extract(ct, idx)
+		}
+		if err != nil {
+			if m := missing(); len(m) > 0 || isMissingKey(err) {
+				return h.Failf("C11:rlwe:Extract:missing-key", "%s: %v (missing %v)", detail, err, m)
+			}
+			return h.Failf("C11:rlwe:Extract:error", "%s: %v", detail, err)
+		}
+		if len(cts) != len(idx) {
+			return h.Failf("C11:rlwe:Extract:count", "%s: %d ciphertexts returned for %d indexes", detail, len(cts), len(idx))
+		}
+		var out *rlwe.Ciphertext
+		if c.Naive == 2 {
+			out, err = eval.RepackNaive(cts)
+		} else {
+			out, err = eval.Repack(cts)
+		}
+		if err != nil {
+			if m := missing(); len(m) > 0 || isMissingKey(err) {
+				return h.Failf("C11:rlwe:Repack:missing-key", "%s: %v (missing %v)", detail, err, m)
+			}
+			return h.Failf("C11:rlwe:Repack:error", "%s: %v", detail, err)
+		}
+		if out == nil || out.LogN() != logN {
+			return h.Failf("C11:rlwe:Repack:shape", "%s: result is nil or not of the maximum ring degree", detail)
+		}
+		have := decrypt(out)
+		for k := 0; k < n; k++ {
+			want := new(big.Int)
+			if idx[k] {
+				want = msg[k]
+			}
+			if !near(have[k], want) {
+				return h.Failf("C11:rlwe:ExtractRepack:value", "%s: coefficient %d = %v, expected %v (noise bound 2^%.1f)", detail, k, have[k], want, noise)
+			}
+		}
+		rec.Classf("variant=%d", c.Naive)
+		rec.Classf("chain=%d", logN-c.MinLogN)
+		rec.NonTrivial(fmt.Sprintf("extractrepack|logN=%d|min=%d|ntt=%v|variant=%d|idx=%v|lvl=%d/%d|nP=%d", logN, c.MinLogN, c.Spec.NTT, c.Naive, c.Idx, c.Level, len(c.Spec.Q)-1, len(c.Spec.P)))
 	default:
 		return h.Failf("C11:harness:mode", "unknown op %q", c.Op)
 	}
